@@ -1120,8 +1120,9 @@ def tree_path_to_fs_path(
       tree_encoding: Encoding used for tree paths (default: utf-8)
     Returns: Filesystem path as bytes (with os.sep, filesystem encoding)
     """
-    # Decode from tree encoding
-    path_str = tree_path.decode(tree_encoding)
+    # Decode from tree encoding; names that are not valid in that encoding
+    # survive the round trip through os.fsencode unchanged
+    path_str = tree_path.decode(tree_encoding, "surrogateescape")
 
     # Replace / with OS separator if needed
     if os.sep != "/":
@@ -2024,7 +2025,7 @@ def add(
         for p in paths:
             # Handle bytes paths by decoding them
             if isinstance(p, bytes):
-                p = p.decode("utf-8")
+                p = os.fsdecode(p)
             path = Path(p)
             if not path.is_absolute():
                 # Make relative paths relative to the repo directory
@@ -2080,7 +2081,7 @@ def add(
                 # Also add unstaged (modified) files within this directory
                 for unstaged_path in all_unstaged_paths:
                     if isinstance(unstaged_path, bytes):
-                        unstaged_path_str = unstaged_path.decode("utf-8")
+                        unstaged_path_str = os.fsdecode(unstaged_path)
                     else:
                         unstaged_path_str = unstaged_path
 
